@@ -1,5 +1,6 @@
 import Pw.C19.Oracle
 import Pw.T8.Main
+import Pw.C01.Symm
 open Closure MG
 
 /-! # C19, sigma clause, unconditional
@@ -35,6 +36,29 @@ theorem sigmaSeparated_order_indep {G : MG} {o1 o2 : List Nat} (hd : Dom G) (hu 
     sigmaSeparated G o1 X Y Z = sigmaSeparated G o2 X Y Z := by
   rw [sigmaSeparated_eq_dec hd hu h1 X Y Z hX hY hZ hXYZ hYZ,
     sigmaSeparated_eq_dec hd hu h2 X Y Z hX hY hZ hXYZ hYZ]
+
+/-- swapping X and Y never changes the answer of the model of `sigma_separated` -/
+theorem sigmaSeparated_symm {G : MG} {order : List Nat} (hd : Dom G) (hu : G.un = [])
+    (ho : IsOrder G order) (X Y Z : List Nat) (hX : ∀ x ∈ X, x ∈ G.nodes) (hY : ∀ y ∈ Y, y ∈ G.nodes)
+    (hZ : ∀ z ∈ Z, z ∈ G.nodes) (hXZ : ∀ x ∈ X, x ∉ Z) (hYZ : ∀ y ∈ Y, y ∉ Z) :
+    sigmaSeparated G order X Y Z = sigmaSeparated G order Y X Z := by
+  have hA := acy_isAcyclification hd ho
+  unfold sigmaSeparated
+  apply mSeparated_symm _ (hA.wf hd.wf hu) (noUndirAtHead_of_un_nil _ (by rw [acy_un, hu]))
+    (hA.noSelfLoop hu) X Y Z
+  · intro x hx; rw [acy_nodes]; exact hX x hx
+  · intro y hy; rw [acy_nodes]; exact hY y hy
+  · intro z hz; rw [acy_nodes]; exact hZ z hz
+  · exact hXZ
+  · exact hYZ
+
+/-- sigma-separation itself is symmetric (path reversal), so the clause is consistent -/
+theorem SigmaSep.symm_of_dom {G : MG} {order : List Nat} (hd : Dom G) (hu : G.un = [])
+    (ho : IsOrder G order) {X Y Z : List Nat} (hZ : ∀ z ∈ Z, z ∈ G.nodes) (hXZ : ∀ x ∈ X, x ∉ Z)
+    (hYZ : ∀ y ∈ Y, y ∉ Z) (h : SigmaSep G X Y Z) : SigmaSep G Y X Z := by
+  have hA := acy_isAcyclification hd ho
+  rw [sigmaSep_iff_mSep hd hu hA Y X Z hZ hYZ hXZ]
+  exact MSep.symm ((sigmaSep_iff_mSep hd hu hA X Y Z hZ hXZ hYZ).mp h)
 
 /-- non-vacuity: the sigma clause on the two adjacent 2-cycles `0 ⇄ 3 → 1 ⇄ 2`, query (0, 2 | 3) -/
 example : SigmaSpec (fun G X Y Z => sigmaSeparated G [2, 3, 0, 1] X Y Z) W1 [0] [2] [3] :=
